@@ -64,3 +64,33 @@ func VerifH_C05_Frames() { vfC05Run(false) }
 
 // one byte per read
 func VerifH_C05_ByteWise() { vfC05Run(true) }
+
+// C20 at buffer-management boundaries: frames whose total size is a power of two or next to
+// it (sizes at which an implementation might switch between copying, pooling and handing over
+// receive buffers); a delivered frame must stay unchanged while the following frames arrive.
+func VerifH_C20_FrameSizes() {
+	sizes := []int{63, 64, 65, 255, 256, 257, 1023, 1024, 1025, 4095, 4096, 4097, 8191, 8192}
+	size := sizes[vfConcrete(vfInt("size", 0, len(sizes)-1))]
+	mk := func(fill byte, tag string) []byte {
+		f := make([]byte, size)
+		copy(f, "MSGF")
+		binary.LittleEndian.PutUint32(f[4:], uint32(size))
+		f[size-1], f[size/2] = fill, fill
+		copy(f[8:], vfBytes(tag, 4)) // a few symbolic bytes so that the comparison is a solver query
+		return f
+	}
+	f1, f2, f3 := mk(1, "a"), mk(2, "b"), mk(3, "c")
+	tcp := vfTCP("c20", append(append(append([]byte{}, f1...), f2...), f3...))
+	c, err := NewConn(tcp, &Acknowledge{ReceiveBufSize: 8192, SendBufSize: 8192})
+	vfAssert(err == nil && c != nil, "NewConn fails")
+	b1, err := c.Receive()
+	vfAssert(err == nil && string(b1) == string(f1), "the first frame is not delivered as sent")
+	vfFreeze(b1, "frame delivered earlier")
+	b2, err := c.Receive()
+	vfAssert(err == nil && string(b2) == string(f2), "the second frame is not delivered as sent")
+	vfFreeze(b2, "frame delivered earlier")
+	b3, err := c.Receive()
+	vfAssert(err == nil && string(b3) == string(f3), "the third frame is not delivered as sent")
+	vfAssert(string(b1) == string(f1) && string(b2) == string(f2), "a frame delivered earlier changed while later frames arrived")
+	vfReach("stable")
+}
